@@ -117,8 +117,11 @@ class Gen(object):
         if k < 0.3:
             nw2 = max(1, nw - r.randint(1, max(1, min(4, nw - 1))))
             return [s if r.random() < 0.8 else not s, nw2, min(nf, nw2 + 8) - r.randint(0, 2)]
-        if k < 0.5:
+        if k < 0.42:
             return [not s, nw, nf]
+        if k < 0.5:
+            # the sign change that keeps every value: one (or a few) more word bits, same fraction
+            return [not s, min(52, nw + r.randint(1, 3)), nf]
         if k < 0.7:
             d = r.randint(1, 6)
             return [s, min(52, nw + d), nf + r.randint(-1, d)]
@@ -141,7 +144,7 @@ class Gen(object):
         if kind is None:
             if r.random() < self.p.p_boundary:
                 kind = r.choice(['hi', 'lo', 'hi+', 'lo-', 'hi+half', 'lo-half', 'tie', 'far', 'far-',
-                                 'zero', 'hi+frac', 'lo-frac', 'near_hi', 'near_lo', 'pow2', 'pow2'])
+                                 'zero', 'hi+frac', 'lo-frac', 'near_hi', 'near_lo', 'pow2', 'pow2', 'tiny'])
             else:
                 kind = r.choice(['exact', 'exact', 'inexact', 'inexact', 'tie'])
         half = Fraction(1, 2)
@@ -170,6 +173,14 @@ class Gen(object):
             c = hi - r.randint(0, 2) + fr
         elif kind == 'near_lo':
             c = lo + r.randint(0, 2) - fr
+        elif kind == 'tiny':
+            # far below the format's resolution (down to denormals), optionally on top of a code
+            base = Fraction(r.choice([0, 0, r.randint(lo, hi)]))
+            t = Fraction(r.choice([1, -1]), 1 << r.choice([r.randint(8, 40), r.randint(60, 200), r.randint(900, 1060)]))
+            v = Q.unscale(base, nf) + Q.unscale(t, nf) if base == 0 else Q.unscale(base, nf) + Q.unscale(Fraction(t.numerator, 1 << r.randint(4, 20)), nf)
+            if V.float_ok(v) and abs(v) < (1 << 52):
+                return v
+            c = base
         elif kind == 'pow2':
             # a single-bit code (often the top bit): where magnitude estimates by log2 are tight
             k = r.choice([nw - 1, nw - 1, nw - 2, r.randint(0, max(0, nw - 1))]) - (1 if s else 0)
